@@ -263,6 +263,28 @@ func runCase(c Case, st *ev.Stats) (err error) {
 		return fmt.Errorf("%d mutations were queued but %d transitions ran by quiescence", nq, len(txs))
 	}
 	qt := m.QueueTick()
+	// the queue tick counts exactly the tick-carrying (appended) mutations: at idle it equals the highest
+	// tick ever handed out - prepended auto / check / Exception mutations have no tick and must not move
+	// it, else WhenQueue(tick) closes before the mutation owning the tick has run
+	var maxTick uint64
+	for _, mut := range run.Tracer.QueuedSnapshot() {
+		if mut.QueueTick > maxTick {
+			maxTick = mut.QueueTick
+		}
+	}
+	if maxTick < decoyTick-100000 {
+		maxTick = decoyTick - 100000 // no mutation got a tick after the set-up: the tick the case started at
+	}
+	if qt != maxTick {
+		var qs, ts []string
+		for _, mut := range run.Tracer.QueuedSnapshot() {
+			qs = append(qs, fmt.Sprintf("%s%v@%d check=%v auto=%v", mut.Type, mut.Called, mut.QueueTick, mut.IsCheck, mut.IsAuto))
+		}
+		for _, tx := range txs {
+			ts = append(ts, fmt.Sprintf("%s%v@%d", tx.Type, tx.Called, tx.QueueTick))
+		}
+		return fmt.Errorf("the machine is idle at queue tick %d but the highest queue tick handed out to a mutation is %d; queued %v; ran %v; returned %v", qt, maxTick, qs, ts, ticks(rets))
+	}
 	nested := len(run.Runner.NestedResults)
 	for _, r := range rets {
 		if r.res < am.Queued || r.step.Op == "canadd" || r.step.Op == "canremove" {
